@@ -142,6 +142,22 @@ def toOp (j : Json) : Except String Op := do
   else if k = "addProps" then
     let props ← (← (← j.getObjVal? "props").getArr?).toList.mapM toJ
     return .addProps props (← (← j.getObjVal? "ctype").getStr?)
+  else if k = "minMax" then
+    let cols ← (← (← j.getObjVal? "cols").getArr?).toList.mapM fun c => do
+      let a ← c.getArr?
+      if a.size = 2 then
+        let name ← a[0]!.getStr?
+        let t ← (← a[1]!.getObjVal? "t").getStr?
+        if t = "none" then return (name, MinMaxCol.noValues)
+        else if t = "all" then return (name, MinMaxCol.allMissing)
+        else
+          let lo ← toJ (← a[1]!.getObjVal? "lo")
+          let hi ← toJ (← a[1]!.getObjVal? "hi")
+          match getOptNum (some lo), getOptNum (some hi) with
+          | .ok (some l), .ok (some h) => return (name, MinMaxCol.bounds l h)
+          | _, _ => throw "bounds must be numbers"
+      else throw "bad column"
+    return .minMax cols
   else throw s!"unknown op {k}"
 
 def outName : Option Err → String
